@@ -2,10 +2,13 @@ use datafusion::prelude::*;
 #[tokio::main(flavor = "current_thread")]
 async fn main() {
     let ctx = SessionContext::new();
-    ctx.sql("CREATE TABLE t(v DOUBLE) AS VALUES (arrow_cast('-0','Float64')), (0.0), (1.0)").await.unwrap().collect().await.unwrap();
-    for q in ["SELECT v, v = 0.0 AS eq, v IN (0.0) AS in1, v IN (0.0, 5.0) AS in2, v IN (0.0, 5.0, 6.0, 7.0) AS in4, v = 0 AS eqi, v IN (0, 5) AS ini FROM t",
-              "SELECT v FROM t WHERE v IN (0.0, 5.0)", "SELECT v FROM t WHERE v = 0.0", "EXPLAIN SELECT v FROM t WHERE v IN (0.0, 5.0)"] {
-        let b = ctx.sql(q).await.unwrap().collect().await.unwrap();
-        println!("{q}\n{}", arrow::util::pretty::pretty_format_batches(&b).unwrap());
+    ctx.sql("CREATE TABLE t AS SELECT arrow_cast(arrow_cast(x, 'Int64'), 'Date64') AS d, arrow_cast(x / 86400000, 'Int32') AS i FROM (VALUES (86400000), (0), (-86400000)) AS v(x)").await.unwrap().collect().await.unwrap();
+    for q in ["SELECT d, d = arrow_cast('86400000', 'Int64') AS e FROM t",
+              "SELECT d, d < arrow_cast('9223372036854775807', 'Int64') AS e FROM t",
+              "SELECT d, d < arrow_cast('-9223372036854775808', 'Int64') AS e FROM t",
+              "SELECT d, d IN (arrow_cast('86400000', 'Int64'), arrow_cast('9223372036854775807', 'Int64'), 5, 6) AS e FROM t",
+              "SELECT i, a.d, i = a.d AS col_col, i = arrow_cast(arrow_cast('86400000','Int64'),'Date64') AS col_lit FROM t a"] {
+        let r = std::panic::catch_unwind(std::panic::AssertUnwindSafe(|| futures::executor::block_on(async { ctx.sql(q).await?.collect().await })));
+        match r { Ok(Ok(b)) => println!("{q}\n{}", arrow::util::pretty::pretty_format_batches(&b).unwrap()), Ok(Err(e)) => println!("{q} -> ERR {e}"), Err(_) => println!("{q} -> PANIC") }
     }
 }
